@@ -159,7 +159,10 @@ def judge_game(ctx, exe, drv, fen, moves, rng, tier):
     sm = rng.sample(legal_k, min(len(legal_k), 2)) if legal_k else []
     stm_black = fk.split()[1] == 'b'
     # the side to move gets a short clock, the other side a long one: a swapped parse overspends
-    clock = f'go wtime {60000 if stm_black else 350} btime {350 if stm_black else 60000} winc 0 binc 0'
+    w, b = (60000, 350) if stm_black else (350, 60000)
+    parts = [f'wtime {w}', f'btime {b}', 'winc 0', 'binc 0']
+    rng.shuffle(parts)
+    clock = 'go ' + rng.choice(['', 'ponder ']) + ' '.join(parts) + rng.choice(['', ' movestogo 30', ' movestogo 1'])
     cmds = ['ucinewgame',
             f'position fen {fen} moves {" ".join(moves)}', 'printboard', 'hash',
             f'position fen {fk}', 'printboard', 'hash', 'perft 1',
@@ -278,3 +281,109 @@ def run(ctx, pid, ngames, maxplies=24):
                     nrep += 1
                     V.report_violation(ctx, 'UCI front end: ' + what, rep, True, ident='uci-glue ' + what[:120])
     return seen
+
+
+# ------------------------------------------------------------------------------------------- opening book through UCI
+def poly_move(u):
+    """Polyglot move word of a plain (non-castling) uci move"""
+    f = (ord(u[0]) - 97) + 8 * (int(u[1]) - 1)
+    t = (ord(u[2]) - 97) + 8 * (int(u[3]) - 1)
+    promo = {'': 0, 'n': 1, 'b': 2, 'r': 3, 'q': 4}[u[4:5]]
+    return (promo << 12) | ((f // 8) << 9) | ((f % 8) << 6) | ((t // 8) << 3) | (t % 8)
+
+
+def spec_line_poly(drv, fen, moves):
+    text = f'pos {fen}\ngen\n' + ''.join(f'do {m}\ngen\n' for m in moves)
+    rc, M, S, err = V.run_lean(drv, text)
+    st, gens = [], []
+    for l in S:
+        if l.startswith('fen='):
+            d = V.parse_state(l)
+            st.append((d['fen'], int(d['poly'], 16)))
+        elif l.startswith('gen '):
+            gens.append(sorted(r['uci'] for r in V.parse_moves(l)[1]))
+    return list(zip(st, gens))
+
+
+def judge_book(ctx, exe, drv, fen, moves, idx):
+    line = spec_line_poly(drv, fen, moves)
+    if len(line) != len(moves) + 1:
+        return []
+    # keep the prefix of plain moves (no castling: king moving two files; promotions are fine)
+    k = 0
+    for i, m in enumerate(moves):
+        (f_i, key_i), legal_i = line[i]
+        brd = f_i.split()[0]
+        if m in ('e1g1', 'e1c1', 'e8g8', 'e8c8'):
+            break
+        k = i + 1
+    k = min(k, 4)
+    if k < 2:
+        return []
+    recs_main, recs_decoy = [], []
+    for i in range(k):
+        (f_i, key_i), legal_i = line[i]
+        main = moves[i]
+        recs_main.append(key_i.to_bytes(8, 'big') + poly_move(main).to_bytes(2, 'big') + (10).to_bytes(2, 'big') + bytes(4))
+        others = [x for x in legal_i if x != main and x not in ('e1g1', 'e1c1', 'e8g8', 'e8c8')]
+        if others:
+            recs_decoy.append(key_i.to_bytes(8, 'big') + poly_move(others[0]).to_bytes(2, 'big') + (1).to_bytes(2, 'big') + bytes(4))
+    d = os.path.join(V.VERIF, '.cache', 'books')
+    os.makedirs(d, exist_ok=True)
+    path = os.path.join(d, f'glue_{os.getpid()}_{idx}.bin')
+    with open(path, 'wb') as fh:
+        fh.write(b''.join(recs_main) + b''.join(recs_decoy))     # same key non-contiguous, heavier record first
+    cmds = [f'setoption name Polyglot Book value {path}', 'setoption name Polyglot Sample value best', 'ucinewgame',
+            f'position fen {fen}', 'go depth 1',
+            f'moves {moves[0]}', 'go depth 1']
+    exp = [(4, moves[0]), (6, moves[1])]
+    if k >= 3:
+        cmds += [f'position fen {fen} moves {moves[0]} {moves[1]}', 'go depth 1']
+        exp.append((len(cmds) - 1, moves[2]))
+    cmds += ['ucinewgame', f'position fen {fen}', 'go depth 1']
+    exp.append((len(cmds) - 1, moves[0]))
+    res, dead, stderr = run_script(exe, cmds)
+    try:
+        os.remove(path)
+    except OSError:
+        pass
+    script = '\n'.join(cmds) + '\n'
+    hdr = ('# UCI session with an opening book: records (key from the rules-level Polyglot key, move, weight) = ' +
+           ' '.join(f'[{line[i][0][1]:016x} {moves[i]} w10]' for i in range(k)) + ' followed by one weight-1 decoy per key\n')
+    probs = []
+    if dead:
+        return [('C19', 'UCI book session: ' + dead, hdr + script)]
+    for i, want in exp:
+        c, lines, el = res[i] if i < len(res) else ('', [], None)
+        b = [l.split()[1] for l in lines if l.startswith('bestmove') and len(l.split()) > 1]
+        infos = [l for l in lines if l.startswith('info') and ' pv ' in l]
+        if b != [want] or infos:
+            what = (f'`{c}` (command #{i}) answered {b}' + (' after a search (the book was not used)' if infos else '') +
+                    f'; the book holds {want} with the highest weight for this position')
+            probs.append(('C19', what, hdr + script))
+            probs.append(('C18', what, hdr + script))
+            break
+    return probs
+
+
+def run_book(ctx, pid, ngames):
+    from concurrent.futures import ThreadPoolExecutor
+    games = [g for g in games_from(ctx, ngames * 3, 12, 5151) if len(g[1]) >= 3][:ngames]
+    games = [('rnbqkbnr/pppppppp/8/8/8/8/PPPPPPPP/RNBQKBNR w KQkq - 0 1', ['e2e4', 'e7e5', 'g1f3', 'b8c6']),
+             ('4k3/P7/8/8/8/8/7p/4K3 w - - 0 1', ['a7a8q', 'h2h1n', 'e1e2', 'e8e7'])] + games
+    nrep = 0
+    n = 0
+
+    def one(a):
+        i, (f, m) = a
+        return judge_book(ctx, ctx.exe, ctx.drv, f, m, i)
+    with ThreadPoolExecutor(max_workers=max(2, (os.cpu_count() or 4) // 2)) as ex:
+        for probs in ex.map(one, list(enumerate(games))):
+            n += 1
+            ctx.cov['evaluations'] += 1
+            ctx.count('uci_book_sessions')
+            for (p, what, rep) in probs:
+                if p == pid and nrep < 2:
+                    nrep += 1
+                    V.report_violation(ctx, 'UCI front end with a book: ' + what, rep, True, ident='uci-book ' + what[:100])
+    return n
